@@ -171,6 +171,9 @@ class Check:
             cmd.append("-race")
         if tags:
             cmd += ["-tags", ",".join(tags)]
+        if os.environ.get("VERIF_COVER"):
+            # development aid (bin/coverage): which statements of the library do the drivers execute at all?
+            cmd += ["-cover", "-coverpkg=github.com/jub0bs/cors/..."]
         cmd.append(".")
         env = dict(os.environ, **GOENV)
         env["GOCACHE"] = os.environ.get("GOCACHE", os.path.expanduser("~/.cache/go-build"))
@@ -186,6 +189,8 @@ class Check:
         e["VERIF_SEED"] = str(self.seed)
         if env:
             e.update(env)
+        if os.environ.get("VERIF_COVER"):
+            e["GOCOVERDIR"] = os.environ["VERIF_COVER"]
         def limit():
             # a runaway recursion / allocation loop in the code under test must end as a Go fatal error, not as an OOM kill
             import resource
